@@ -1422,6 +1422,7 @@ class Rearer(Actor):
                                         frame.name,
                                         framer.name))
             clone = original.clone(name=name, tag=tag, schedule=schedule)
+            clone.sources = framer.sources + (original.name, )
             clone.original = False  # main frame will be fixed
             clone.insular = True  #  local to this framer
             clone.razeable = True  # can be razed
